@@ -16,7 +16,8 @@ def hasnot(*subs):
 PROPS = {
     "C01": dict(
         units=[("contracts.selection", has("simple_batch", "rand_argmax")), ("contracts.lemmas", None),
-               ("contracts.pool_base", None), ("contracts.pool_epilogue", has("C01", "epilogue")), ("contracts.pool_loops", has("C01"))],
+               ("contracts.pool_base", None), ("contracts.pool_epilogue", has("C01", "epilogue")), ("contracts.pool_loops", has("C01")),
+               ("contracts.pool_falcun", has("C01"), "thorough")],
         bounded=[("bounded/pool.py", "C01")],
         trusted=[L2_BASE, "library contracts of pyvc/lib.py used by the selection code (nanmax, argmax, choice, scatter/gather, np.sum as CNT)",
                  "[A-score] the score expression of a strategy yields len(X_cand) non-NaN numbers (checked at run time by the bounded stand-in)"],
@@ -26,7 +27,8 @@ PROPS = {
                     "array that is NaN exactly off the candidates together with the clipped batch size; every exported strategy swept at run time"),
     "C02": dict(
         units=[("contracts.selection", has("simple_batch", "rand_argmax")), ("contracts.lemmas", None),
-               ("contracts.pool_epilogue", has("C02", "epilogue")), ("contracts.pool_loops", has("C02"))],
+               ("contracts.pool_epilogue", has("C02", "epilogue")), ("contracts.pool_loops", has("C02")),
+               ("contracts.pool_falcun", has("C02"), "thorough")],
         bounded=[("bounded/pool.py", "C02")],
         trusted=[L2_BASE, "[A-score] as in C01"],
         assumptions=["row structure is stated recursively: M(0) = non-NaN mask of the input, M(i+1) = M(i) minus pick i; row i is NaN exactly off M(i)"],
@@ -180,7 +182,10 @@ def run(prop, tier, seed, write_baseline=False, only=None):
     chk = Check(prop, tier, seed)
     groups = []
     missing = []
-    for mod, pred in spec["units"]:
+    for entry in spec["units"]:
+        mod, pred = entry[0], entry[1]
+        if len(entry) > 2 and entry[2] == "thorough" and tier != "thorough":
+            continue          # slow unit groups (minutes of solver time) belong to the thorough tier only
         try:
             importlib.import_module(mod)
         except ModuleNotFoundError:
